@@ -520,7 +520,8 @@ PROPS["C19"]["r"]["quick"] = PROPS["C19"]["r"]["quick"] + [_rb().bdf_protocol(Fa
 PROPS["C19"]["r"]["thorough"] = PROPS["C19"]["r"]["thorough"] + [_rb().bdf_protocol(False), _rb().bdf_protocol(True), _rb().bdf_iteration(False), _rb().bdf_iteration(True)]
 PROPS["C03"]["r"]["quick"] = PROPS["C03"]["r"]["quick"] + [_rb().bdf_iteration(False), _rs().c03_prefix("RK23", False, with_first_step=False), _rs().c03_prefix("DOPRI5", False, with_first_step=False),
                                                            _rs().c03_prefix("RK23", True, with_first_step=False)]
-PROPS["C05"]["r"]["quick"] = PROPS["C05"]["r"]["quick"] + [_rb().bdf_iteration(True)] + [_rs().c03_times(m, b) for m, b in _EXPL_Q]
+PROPS["C05"]["r"]["quick"] = PROPS["C05"]["r"]["quick"] + [_rb().bdf_iteration(True)] + [_rs().c03_times(m, b) for m, b in _EXPL_Q if m in ("RK23", "DOPRI5")]
+PROPS["C05"]["r"]["thorough"] = PROPS["C05"]["r"]["thorough"] + [_rs().c03_times(m, b) for m, b in _EXPL_T]
 PROPS["C05"]["files"] = PROPS["C05"]["files"] + _ST_FILES + ["src/methods/bdf.rs"]
 PROPS["C05"]["r"]["thorough"] = PROPS["C05"]["r"]["thorough"] + [_rb().bdf_iteration(False), _rb().bdf_iteration(True)]
 PROPS["C03"]["r"]["thorough"] = PROPS["C03"]["r"]["thorough"] + [_rb().bdf_iteration(False), _rb().bdf_iteration(True)]
